@@ -92,6 +92,7 @@ def relations(rng, tier, rpt):
                     "impl_output": got, "model_output": want, "no_failing_input": False})
 
     seed = rand_seed(rng)
+    seed32 = (seed * 2)[:32]      # Substrate and Monero take exactly/at least 32 bytes; BIP-32 seeds may be as short as 16
     for r in rows():
         cls, en, getter = FAM[r["family"]]
         coin = en[r["member"]]
@@ -99,6 +100,9 @@ def relations(rng, tier, rpt):
         with Toggle(conf, r["variant"]):
             b = cls.FromSeed(seed, coin).DeriveDefaultPath()
             n += 1
+            from harness.props.accessors_common import bip44_key_wrappers
+            for what, inp, got, want in bip44_key_wrappers(b, "%s.%s" % (r["family"], r["member"])):
+                rep(what, inp, got, want)
             fmt = r["addrFmt"]
             if fmt in T and fmt not in ("xmr", "xmrint"):
                 addr = b.PublicKey().ToAddress()
@@ -164,7 +168,7 @@ def relations(rng, tier, rpt):
     for coin in SubstrateCoins:
         conf = SubstrateConfGetter.GetConfig(coin)
         for path in ("", "//a/b"):
-            w = Substrate.FromSeedAndPath(seed[:32], path, coin)
+            w = Substrate.FromSeedAndPath(seed32, path, coin)
             addr = w.PublicKey().ToAddress()
             n += 1
             try:
@@ -176,8 +180,8 @@ def relations(rng, tier, rpt):
     for coin in MoneroCoins:
         conf = MoneroConfGetter.GetConfig(coin)
         pid = bytes(range(8))
-        wallets = {"FromSeed": Monero.FromSeed(seed[:32], coin), "FromBip44PrivateKey(bytes)": Monero.FromBip44PrivateKey(seed[:32], coin),
-                   "FromBip44PrivateKey(key object)": Monero.FromBip44PrivateKey(Ed25519PrivateKey.FromBytes(seed[:32]), coin)}
+        wallets = {"FromSeed": Monero.FromSeed(seed32, coin), "FromBip44PrivateKey(bytes)": Monero.FromBip44PrivateKey(seed32, coin),
+                   "FromBip44PrivateKey(key object)": Monero.FromBip44PrivateKey(Ed25519PrivateKey.FromBytes(seed32), coin)}
         full = wallets["FromSeed"]
         wallets["FromPrivateSpendKey"] = Monero.FromPrivateSpendKey(full.PrivateSpendKey().Raw().ToBytes(), coin)
         wallets["FromWatchOnly"] = Monero.FromWatchOnly(full.PrivateViewKey().Raw().ToBytes(), full.PublicSpendKey().RawCompressed().ToBytes(), coin)
@@ -230,7 +234,130 @@ def relations(rng, tier, rpt):
         diff = [(x["family"], x["member"], [k for k in x if x.get(k) != y.get(k)]) for x, y in zip(a, b) if x != y] or b[:1]
         rep("coin constants differ after the end-to-end flows (a wrapper edited a shared configuration object)", "Cip1852 + CardanoShelley flows", str(diff[:4]), "unchanged")
     rpt.extra["impl_end_to_end_checks"] = n
+    rpt.extra["per_key_parameter_checks"] = _per_key_params(rng, tier, rep, seed)
     return bad[:8]
+
+
+def _canon_params(p):
+    """an address-parameter dictionary as plain comparable data (values read through public accessors only)"""
+    import enum
+
+    def cv(v):
+        if isinstance(v, (bytes, bytearray)):
+            return "b:" + bytes(v).hex()
+        if isinstance(v, enum.Enum):
+            return "e:%s.%s" % (type(v).__name__, v.name)
+        if isinstance(v, (str, int, bool)) or v is None:
+            return "v:%r" % (v,)
+        if hasattr(v, "ToBytes"):
+            return "o:" + bytes(v.ToBytes()).hex()
+        return "?:" + type(v).__name__          # an unresolved placeholder (or anything else): only its kind
+    return tuple(sorted((k, cv(v)) for k, v in p.items()))
+
+
+def _byron_root(pub_key_bytes, chain_code_bytes):
+    """address root of a Byron (Icarus-style, no attributes) address: BLAKE2b-224(SHA3-256(CBOR([0, [0, pub || chain code], {}]))), with
+    hashlib and a hand-written CBOR prefix (definite lengths: array(3) 0 array(2) 0 bytes(64) ... map(0))"""
+    import hashlib
+    ext = pub_key_bytes + chain_code_bytes
+    assert len(ext) == 64
+    ser = b"\x83\x00\x82\x00\x58\x40" + ext + b"\xa0"
+    return hashlib.blake2b(hashlib.sha3_256(ser).digest(), digest_size=28).digest()
+
+
+def _per_key_params(rng, tier, rep, seed):
+    """'the address is computed by the configured encoder with the configured parameters, including the parameters resolved from the key':
+    the parameters of a key belong to that key. For every coin whose address parameters depend on the key (found by comparing the public
+    accessors AddrParams() and AddrParamsWithResolvedCalls(key), not by name) and a sample of the others (thorough: all):
+    (1) history/aliasing — the parameters obtained for key A still describe key A after the parameters of other keys of the same coin were
+        obtained and their addresses computed: they are unchanged, encoder(A, parameters of A) is A's address, and A's address is the
+        one it had before; for Byron addresses the decoded address root is the one hashlib gives for A's key and A's chain code;
+    (2) interleaving — several threads, each computing the address of its own key of the coin again and again, obtain the
+        single-threaded address every time."""
+    import sys, threading, time
+    from gen.gen_coins import rows
+    from bip_utils import Bip44Changes, AdaByronAddrDecoder
+    done = 0
+    allrows = rows()
+    sample = set(range(len(allrows))) if tier == "thorough" else set(rng.sample(range(len(allrows)), 10))
+    nkeys = 4
+    for ri, r in enumerate(allrows):
+        cls, en, getter = FAM[r["family"]]
+        coin = en[r["member"]]
+        conf = getter.GetConfig(coin)
+        name = "%s.%s%s" % (r["family"], r["member"], "/" + r["variant"] if r["variant"] else "")
+        if r["addrFmt"] in ("adashelley", "xmr") or not hasattr(conf, "AddrParamsWithResolvedCalls"):
+            continue          # these addresses need a second key and are produced by the wrappers checked above
+        with Toggle(conf, r["variant"]):
+            mst = cls.FromSeed(seed, coin)
+            first = mst.DeriveDefaultPath().PublicKey()
+            per_key = _canon_params(conf.AddrParamsWithResolvedCalls(first.Bip32Key())) != _canon_params(conf.AddrParams())
+            if not per_key and ri not in sample:
+                continue
+            chg = mst.Purpose().Coin().Account(rng.randrange(3)).Change(Bip44Changes.CHAIN_EXT)
+            i0 = rng.randrange(1000)
+            keys = [first] + [chg.AddressIndex(i0 + j).PublicKey() for j in range(nkeys - 1)]
+            enc = conf.AddrClass()
+            # (1) parameters and address of every key, taken one key after the other; then everything is looked at again
+            held, addr0 = [], []
+            for k in keys:
+                p = conf.AddrParamsWithResolvedCalls(k.Bip32Key())
+                held.append((p, _canon_params(p)))
+                addr0.append(k.ToAddress())
+            done += 1
+            for j, k in enumerate(keys):
+                p, view = held[j]
+                what = None
+                if _canon_params(p) != view:
+                    what, got, want = "the address parameters obtained for one key changed when the parameters of another key of the coin were obtained", str(_canon_params(p)), str(view)
+                elif enc.EncodeKey(k.Bip32Key().KeyObject(), **p) != addr0[j]:
+                    what, got, want = "the configured encoder with the parameters obtained for the key does not give the address of the key", enc.EncodeKey(k.Bip32Key().KeyObject(), **p), addr0[j]
+                elif k.ToAddress() != addr0[j]:
+                    what, got, want = "the address of a key changed after addresses of other keys of the coin were computed", k.ToAddress(), addr0[j]
+                elif r["addrFmt"] == "adabyronicarus":
+                    root = AdaByronAddrDecoder.DecodeAddr(addr0[j])[:28]
+                    ref = _byron_root(k.RawCompressed().ToBytes()[1:], k.ChainCode().ToBytes())
+                    if root != ref:
+                        what, got, want = "the decoded address root is not the one determined by the public key and its chain code", root.hex(), ref.hex()
+                if what:
+                    rep(what, "%s key %d of %s" % (name, j, [x.RawCompressed().ToHex() for x in keys]), got, want)
+                    break
+            if not per_key:
+                continue
+            # (2) the same keys from one thread each
+            errs = []
+            start = threading.Barrier(nkeys)
+            deadline = time.time() + (1.0 if tier == "quick" else 6.0)
+
+            def worker(idx):
+                k, want = keys[idx], addr0[idx]
+                start.wait()
+                for rnd in range(100000):
+                    try:
+                        got = k.ToAddress()
+                    except Exception as ex:  # noqa  (a valid key of the coin always has an address)
+                        got = "raised " + type(ex).__name__
+                    if got != want:
+                        errs.append((idx, rnd, got, want))
+                        return
+                    if errs or (rnd % 16 == 15 and time.time() > deadline):
+                        return
+            old = sys.getswitchinterval()
+            sys.setswitchinterval(1e-6)
+            try:
+                ths = [threading.Thread(target=worker, args=(i,)) for i in range(nkeys)]
+                for t in ths:
+                    t.start()
+                for t in ths:
+                    t.join()
+            finally:
+                sys.setswitchinterval(old)
+            done += 1
+            if errs:
+                idx, rnd, got, want = errs[0]
+                rep("ToAddress() of a key returns another address when other threads compute addresses of other keys of the same coin",
+                    "%s key %s, call %d of its thread, %d threads" % (name, keys[idx].RawCompressed().ToHex(), rnd, nkeys), got, want)
+    return done
 
 
 def search_broken(broken, rng, fields=None):
